@@ -180,3 +180,19 @@ class MultibyteSpec(Spec):
 
 def make(cfg, tier):
     return MultibyteSpec(cfg, tier)
+
+
+def run_config(cfg, tier, seed):
+    """explore with the byte endpoint as environment; additionally make sure the class elaborates down to a netlist with
+    its real inner USBStreamInEndpoint (the seam must not hide a class that cannot be built at all)"""
+    from rtlmc import explore
+    from amaranth.hdl import Fragment, _ir as ir
+    import luna.gateware.usb.usb2.endpoints.stream as epmod
+    r = explore.run_spec(make(cfg, tier), seed)
+    try:
+        ep = epmod.USBMultibyteStreamInEndpoint(byte_width=cfg["byte_width"], endpoint_number=1, max_packet_size=64)
+        ir.build_netlist(Fragment.get(ep, None), ports=[ep.stream.valid, ep.stream.payload, ep.stream.ready], name="top")
+    except Exception as e:
+        r["violations"].append(dict(rule="elaboration-fails:with-real-byte-endpoint", detail=f"{type(e).__name__}: {e}",
+                                    path=[], count=1))
+    return r
